@@ -24,9 +24,9 @@ git apply -R "$out/patch.diff"
 if $GO test -vet=off -count=1 "$@" ./$dest/ > /tmp/wt/v-$id.demo2 2>&1; then res "demo without change: PASS (expected)"; else res "demo without change: FAIL (unexpected)"; tail -5 /tmp/wt/v-$id.demo2; fi
 cd /verif
 git -C /repo worktree remove --force "$v"
-# the property's quick check against the seeded change
-git -C /repo apply "$out/patch.diff" || { res "patch does not apply to /repo"; exit 2; }
-bin/check "$prop" --tier quick > "$out/check_quick.log" 2>&1; rc=$?
-git -C /repo checkout -- .
+# the property's quick check against the seeded change (scratch worktree + scratch copy of /verif; /repo untouched)
+tools/seed_matrix_par.sh -j 1 "$id" > "$out/matrix_run.log" 2>&1
+rc=$(grep "^$id $prop " "$out/matrix_run.log" | head -1 | sed 's/.*exit=\([0-9]*\).*/\1/')
+rm -f "$out/matrix_run.log"
 res "bin/check $prop --tier quick on the seeded tree: exit $rc"
 grep -E "^VIOLATION|^  what" "$out/check_quick.log" | head -6 | cut -c1-300 | tee -a "$out/verify.log"
